@@ -447,6 +447,11 @@ structure Deselect where
   guard : String                 -- "isNotNone" (`remaining is not None`: None = option not given) | "truthy" (`if remaining:`)
   markName : String              -- the mark attached to every task whose signature is not in `remaining`
   deriving Repr, DecidableEq
+/-- Where `select_tasks_by_marks_and_expressions` is applied. -/
+structure SelectionSite where
+  inCreateDagFromSession : Bool  -- called (unconditionally, at top level) in `dag.create_dag_from_session`
+  recreateUsesIt : Bool          -- `provisional_utils.recreate_dag` builds the new DAG with `create_dag_from_session`
+  deriving Repr, DecidableEq
 /-- The string branch of the loop over `session.tasks` in `_modify_dag` (dag.py). -/
 structure AfterLoop where
   selectFn : String              -- the function evaluated on (session, after) in every iteration
@@ -1183,6 +1188,33 @@ def deselect_facts(mod: ast.Module):
     return steps
 
 
+# ---- where the selection is applied: on every (re-)creation of the DAG -----------------------------------------------------------
+
+def selection_site_facts(dag_mod: ast.Module, prov_mod: ast.Module):
+    def fn_of(mod, name, what):
+        f = [n for n in mod.body if isinstance(n, ast.FunctionDef) and n.name == name]
+        if len(f) != 1:
+            raise _dE(f"{what}: function {name} not found")
+        return f[0]
+    cds = fn_of(dag_mod, "create_dag_from_session", "dag.py")
+    in_cds = False
+    for st in _stmts(cds):
+        call = st.value if isinstance(st, ast.Expr) else None
+        if isinstance(call, ast.Call) and isinstance(call.func, ast.Name) and call.func.id == "select_tasks_by_marks_and_expressions":
+            in_cds = True
+    # a call nested in a condition / loop is not "on every creation"
+    nested = [n for n in ast.walk(cds) if isinstance(n, ast.Call) and isinstance(n.func, ast.Name)
+              and n.func.id == "select_tasks_by_marks_and_expressions"]
+    if nested and not in_cds:
+        raise _dE("create_dag_from_session calls select_tasks_by_marks_and_expressions conditionally")
+    rec = fn_of(prov_mod, "recreate_dag", "provisional_utils.py")
+    uses = any(isinstance(n, ast.Call) and isinstance(n.func, ast.Name) and n.func.id == "create_dag_from_session" for n in ast.walk(rec))
+    others = [n.func.id for n in ast.walk(rec) if isinstance(n, ast.Call) and isinstance(n.func, ast.Name) and n.func.id.startswith(("create_dag", "_create_dag"))]
+    if not others:
+        raise _dE("recreate_dag does not create a DAG through a known function")
+    return {"in_cds": in_cds, "recreate": uses}
+
+
 # ---- `_modify_dag` (dag.py): the per-task evaluation of `after="<expr>"` -------------------------------------------------------
 
 def _dE(msg):
@@ -1384,6 +1416,7 @@ def grammar_section() -> list[str]:
         mod = ast.parse((X.SRC / "mark" / "expression.py").read_text())
         mmod = ast.parse((X.SRC / "mark" / "__init__.py").read_text())
         dmod = ast.parse((X.SRC / "dag.py").read_text())
+        pmod = ast.parse((X.SRC / "provisional_utils.py").read_text())
     except (OSError, SyntaxError) as e:
         raise X.ExtractError(f"cannot parse mark/: {e}") from None
     f = lex_facts(lambda m: X.ExtractError("expression.py: " + m), mod)
@@ -1392,6 +1425,7 @@ def grammar_section() -> list[str]:
     sf = select_facts(mmod)
     al = after_loop_facts(dmod)
     ds = deselect_facts(mmod)
+    site = selection_site_facts(dmod, pmod)
     b = X.lean_bool
     L = [GRAM_SCHEMA]
 
@@ -1423,6 +1457,8 @@ def grammar_section() -> list[str]:
         s = sf[fname]
         L.append(f"def {key} : Gram.Select := {{ noneWhenEmpty := {b(s['none'])}, parseErrorIsError := true, matcher := {_lean_s(s['matcher'])}, "
                  f"guardNonEmpty := {b(s['guard'])}, closure := {b(s['closure'])} }}")
+    L.append("/-- The selection is part of every creation of the DAG, also of the re-creation after a task generator ran. -/")
+    L.append(f"def selectionSite : Gram.SelectionSite := {{ inCreateDagFromSession := {b(site['in_cds'])}, recreateUsesIt := {b(site['recreate'])} }}")
     L.append("/-- `select_tasks_by_marks_and_expressions`: both selections are evaluated first, then these steps run in order. -/")
     L.append("def deselectSteps : List Gram.Deselect := " + X.lean_list(ds, lambda r: f"{{ selectFn := {_lean_s(r[0])}, guard := {_lean_s(r[1])}, markName := {_lean_s(r[2])} }}"))
     L.append("/-- `_modify_dag`: how `after=\"<expr>\"` is turned into edges, per task. -/")
